@@ -58,6 +58,9 @@ claimed = {
  "C06": dict(cat="model_checking", tech="explicit-state BFS over discovery-notification histories on the real code, reference tree and reference registries stepped alongside",
              text="BFS (depth 3 quick / 4 thorough, de-duplicated on tree + registries) over partial add/remove notifications for entities [1],[2],[1,1] in two variants, two-entity notifications (add+add, remove+remove, add+remove, remove+add), full notifications of entity subsets, repeated adds and removal of unknown entities from two peers, starting from a world with subscriptions, bindings and local client bookkeeping; after each message the tree reported by the API (addresses, types, descriptions, features, roles, operations, resolution by address), the entity events and the cascade into registries and bookkeeping are compared with the reference.",
              ref="4 C06"),
+ "C05": dict(cat="model_checking", tech="bounded exhaustive enumeration of message mutants (deviation bound 1 quick / 2 thorough from 22 seed messages, all truncations) x 3 connection states, each executed on the real code under the controlled scheduler (panic capture in every goroutine, deadlock detection), followed by probe reads",
+             text="All single-field mutations (remove, null, empty, wrong kind, unknown value) of every JSON node of 22 valid seed messages of every kind, every byte prefix and garbage wrappings, delivered in three connection states on a fresh world; thorough adds all mutation pairs and every (mutant, seed) ordered pair; after each: no goroutine panicked, no deadlock, handling terminated, and a valid discovery read on the mutant's connection and on another peer's connection is answered.",
+             ref="4 C05"),
 }
 checks = []
 for pid, c in sorted(claimed.items()):
